@@ -557,7 +557,7 @@ def run_c05(run, thorough=False):
         run.case("asm.data", {"src": [l.strip()[:120] for l in c["lines"]]}, [im["k"], c["tag"]], nontrivial=True, sample_every=41)
         run.dist["c05." + c["tag"] + "." + im["k"]] += 1
         if im["k"] not in ("ok", "diag"):
-            rid = "I2" if mn == "INCLUDE" else None
+            rid = None
             run.violate("C13/C05: a data directive ends in an internal error", inp, "ok|diag", [im["k"], im.get("exc")], known_id=rid if (rid and same) else None)
             continue
         st = im["stmts"][m["stmt"]] if im["k"] == "ok" else None
@@ -643,7 +643,7 @@ def run_c13(run, thorough=False):
         if k in ("ok", "diag"):
             continue
         same = fam_asm_key({"lines": c["lines"], "files": c.get("files")}) not in bad
-        rid = "I2" if (c["tag"].startswith("include") or any("INCLUDE" in l.upper() for l in c["lines"])) else None
+        rid = None
         run.violate("C13: assembling does not end with output or a source-level diagnostic ({})".format(k),
                     {"lines": c["lines"] if len(c["lines"]) < 40 else c["lines"][:4] + ["... %d lines" % len(c["lines"])], "files": c.get("files")},
                     "ok | diag", [k, im.get("exc")], known_id=rid if (rid and same) else None)
@@ -900,7 +900,7 @@ def run_c19(run, thorough=False):
         if c["tag"] in ("include-missing", "include-cycle"):
             if im["k"] != "diag":
                 run.violate("C19: a missing include file / an inclusion cycle is not reported as a diagnostic", inp, "diag", [im["k"], im.get("exc")],
-                            known_id="I2" if same else None)
+                            known_id=None)
             continue
         fc, fim, frep = next(fi)
         a = proj_layout(fam_asm.impl_prog_canon(im))
